@@ -4,8 +4,8 @@
            gen/GenSimdConst.v, regenerated from simd/x86_64/*.asm on every run)
    c_*   : the C code of src/*.c (constants regenerated from the C files). *)
 From Coq Require Import List ZArith String Bool.
-From LJT Require Import lib.Words gen.GenSimdConst model.SimdColor model.SimdSample model.SimdQuant model.SimdDct model.SimdIdctFast model.SimdFdctInt model.SimdIdctInt model.SimdAvx2Shuffle model.SimdRows
-  proofs.SimdColorProofs proofs.SimdSampleProofs proofs.SimdQuantProofs proofs.SimdConstProofs proofs.SimdDctProofs proofs.SimdIdctFastProofs proofs.SimdFdctIntProofs proofs.SimdIdctIntProofs proofs.SimdDctBoundsProofs proofs.SimdAvx2ShuffleProofs proofs.SimdRowsProofs.
+From LJT Require Import lib.Words gen.GenSimdConst model.SimdColor model.SimdSample model.SimdQuant model.SimdDct model.SimdIdctFast model.SimdFdctInt model.SimdIdctInt model.SimdAvx2Shuffle model.SimdHuff model.SimdPhuff model.SimdRows
+  proofs.SimdColorProofs proofs.SimdSampleProofs proofs.SimdQuantProofs proofs.SimdConstProofs proofs.SimdDctProofs proofs.SimdIdctFastProofs proofs.SimdFdctIntProofs proofs.SimdIdctIntProofs proofs.SimdDctBoundsProofs proofs.SimdAvx2ShuffleProofs proofs.SimdHuffProofs proofs.SimdPhuffProofs proofs.SimdRowsProofs.
 Import ListNotations.
 Local Open Scope Z_scope.
 
@@ -218,6 +218,28 @@ Theorem C05_avx2_dct_layout_positions :
   jidctint_avx2_dotranspose_calls = [[0; 1; 2; 3; 4; 5; 6; 7]; [0; 1; 2; 4; 3; 5; 6; 7]].
 Proof. exact (conj jfdctint_avx2_transpose_positions (conj jidctint_avx2_transpose_positions avx2_transpose_calls)). Qed.
 Print Assumptions C05_avx2_dct_layout_positions.
+
+(* (12) Huffman encoding of one block (jchuff-sse2.asm vs encode_one_block of jchuff.c): for ALL blocks the pre-check of
+   encode_one_block_simd admits (|AC| <= 16383 covers 8- and 12-bit data, |DC difference| <= 32767) and ALL derived
+   tables, the kernel emits exactly the C sequence of PUT_BITS(code, size): sign / one's complement via pcmpgtw/paddw,
+   nbits through the generated jpeg_nbits_table rows and their mirror image for negative indices, the generated
+   jpeg_mask_bits, tzcnt runs over the non-zero mask, ZRL loop, symbol index, EOB test *)
+Theorem C05_huff_puts_eq : forall DC AC block last_dc, block_ok block last_dc ->
+  k_encode_puts DC AC block last_dc = c_encode_puts DC AC block last_dc.
+Proof. exact huff_puts_eq. Qed.
+Print Assumptions C05_huff_puts_eq.
+(* (13) progressive "prepare" kernels (jcphuff-sse2.asm vs jcphuff.c): per lane, every coefficient, every Al *)
+Theorem C05_phuff_prepare_lanes_eq : forall x al, coef16 x -> 0 <= al <= 15 ->
+  (fst (k_first (w16 x) al) = fst (c_first x al) /\ snd (k_first (w16 x) al) = snd (c_first x al)) /\
+  (let '(kv, ks, k1) := k_refine (w16 x) al in let '(cv, cs, c1) := c_refine x al in
+   kv = cv /\ k1 = c1 /\ (negb (kv =? 0) && ks) = cs).
+Proof. exact (fun x al H1 H2 => conj (first_lane_eq x al H1 H2) (refine_lane_eq x al H1 H2)). Qed.
+Print Assumptions C05_phuff_prepare_lanes_eq.
+Theorem C05_phuff_refine_prepare_eq : forall xs al, Forall coef16 xs -> 0 <= al <= 15 ->
+  let '(kv, kz, ks, ke) := k_refine_prepare xs al in let '(cv, cz, cs, ce) := c_refine_prepare xs al in
+  kv = cv /\ kz = cz /\ ke = ce /\ map (fun p => fst p && snd p) (combine kz ks) = cs.
+Proof. exact refine_prepare_eq. Qed.
+Print Assumptions C05_phuff_refine_prepare_eq.
 
 (* non-vacuity *)
 Example C05_rgb_ycc_nonvacuous :
